@@ -1,6 +1,6 @@
 ----------------------------- MODULE JudgePorts -----------------------------
 (* C42, V: one recorded case per evaluated form
-     [present, head, redirs, ops, got |-> [exc, r, d, files, caps, closed], panic, fd]
+     [present, piped, head, redirs, ops, got |-> [exc, r, d, files, caps, closed], panic, fd]
    head = "vw:do" (body = ops, per-operation results logged) or a real builtin ("print": one byte to
    port 1, "put": one value to port 1; only the exception, the files and the captured output are seen).
    The walker computes the outcomes Ports accepts for the form and compares; a case that only the
@@ -13,8 +13,8 @@ Init == k = 0
 Next == k < Len(Cases) /\ k' = k + 1
 
 Var(e, m) == [early |-> e, m1raise |-> m]
-Model(c, e, m) == IF c.head = "vw:do" THEN Run(c.present, c.redirs, c.ops, Var(e, m))
-                  ELSE RunBuiltin(c.present, c.redirs, c.ops[1], Var(e, m))
+Model(c, e, m) == IF c.head = "vw:do" THEN Run(c.present, c.piped, c.redirs, c.ops, Var(e, m))
+                  ELSE RunBuiltin(c.present, c.piped, c.redirs, c.ops[1], Var(e, m))
 
 (* tol: accept a fault where the specification leaves the result open *)
 LogMatch(g, ob, tol) ==
@@ -26,7 +26,7 @@ LogMatch(g, ob, tol) ==
        /\ g.d[i] = ob.log[i].d
 Same(c, ob, tol) ==
   LET g == c.got IN
-  /\ c.fd = 0
+  /\ (c.panic \/ c.fd = 0)          \* a fault skips the cleanup: the fault itself is what is reported
   /\ g.files = ob.files /\ g.caps = ob.caps
   /\ IF c.head = "vw:do"
      THEN ~c.panic /\ g.exc = ob.exc /\ LogMatch(g, ob, tol) /\ g.closed = ob.closed
